@@ -374,6 +374,22 @@ func judge(c *Case) (sig, msg string, f facts) {
 			if req.GetNumOfGpuDevices() != wantCount {
 				return "count-mismatch", fmt.Sprintf("admitted device count %s denotes %d but the scheduler sees %d devices", show(c.Count), wantCount, req.GetNumOfGpuDevices()), f
 			}
+			// the request is exactly the annotations: whole GPUs asked by any container or init container would be
+			// handed out by the device plugin but are not part of what the scheduler accounts for a sharing pod
+			sumWhole, maxInitWhole := 0, 0
+			for _, x := range c.Containers {
+				sumWhole += x.GPUs
+			}
+			for _, x := range c.Inits {
+				if x.GPUs > maxInitWhole {
+					maxInitWhole = x.GPUs
+				}
+			}
+			if sumWhole > 0 || maxInitWhole > 0 {
+				return "admitted-sharing-plus-whole-gpu", fmt.Sprintf(
+					"admission accepts a sharing request (fraction=%s memory=%s) on a pod whose containers also ask for whole GPUs (containers %d, largest init container %d); the scheduler accounts only GPUs=%v",
+					show(c.Fraction), show(c.Memory), sumWhole, maxInitWhole, g), f
+			}
 		} else {
 			// whole GPUs: Kubernetes' definition max(sum containers, each init container)
 			sum, maxInit := 0, 0
